@@ -26,6 +26,23 @@ theorem C08_mask_flips {v m : Nat} (hv : v < 40) (hm : m < 8) (q : QR) (hq : WF 
       if mtype (q.get r c) = tData ∧ maskCond m r c = true then mtoggle (q.get r c) else q.get r c :=
   applyMask_get hv hm q hq hn hr hc
 
+/-- **C08 for EVERY side** (not only the 40 legal ones) and every mask number: the sweeps of `datamasking.rs` flip exactly
+the Data-typed cells where the ISO Table 10 condition holds, on every well-formed matrix — by the symbolic visit-count
+theorem `SweepSym.count_parity`; no table and no natively evaluated fact is involved -/
+theorem C08_mask_flips_any (m : Nat) (q : QR) (hq : WF q) {r c : Nat} (hr : r < q.n) (hc : c < q.n) :
+    (applyMask m q).get r c =
+      if mtype (q.get r c) = tData ∧ maskCond m r c = true then mtoggle (q.get r c) else q.get r c :=
+  applyMask_get_any m q hq hr hc
+
+/-- every sweep stays inside the square and visits a cell an odd number of times exactly where the mask condition holds,
+whatever the side -/
+theorem C08_sweep_parity (m n r c : Nat) (hr : r < n) (hc : c < n) :
+    (∀ p ∈ maskPositions m n, p.1 < n ∧ p.2 < n) ∧
+    ((maskPositions m n).count (r, c) % 2 = 1 ↔ maskCond m r c = true) :=
+  ⟨SweepSym.mem_bounds m n, SweepSym.count_parity m n r c hr hc⟩
+
+example : (maskPositions 5 7).count (2, 3) % 2 = 1 ∧ maskCond 5 2 3 = true := by decide
+
 /-- in terms of values and labels -/
 theorem C08_mask_value {v m : Nat} (hv : v < 40) (hm : m < 8) (q : QR) (hq : WF q)
     (hn : q.n = 21 + 4 * v) {r c : Nat} (hr : r < q.n) (hc : c < q.n) :
